@@ -190,7 +190,7 @@ func init() {
 				}
 			}
 		}
-		r.Floor("mutable shared fields", n, 20)
+		r.Floor("mutable shared fields", n, 15)
 		// TableHeap.lastPageID: atomic only
 		last := w.Field("storage/access", "TableHeap", "lastPageID")
 		cnt := 0
